@@ -144,6 +144,9 @@ func (fr *faultRun) connect(name, cid string, subs ...string) (*fClient, string)
 		if fr.wk == "big" {
 			act.Will.Pl = "HUGE" // 20,000 bytes: more than a 16 KiB ring
 		}
+		if fr.wk == "mid" {
+			act.Will.Pl = "MID" // 12,000 bytes: fits the ring, but is longer than any message a client can publish through it
+		}
 	}
 	m, err := fr.r.rawConnect(name, act)
 	if err != nil {
@@ -556,7 +559,7 @@ func runFaults(sc *fScenario) (d string, tag string) {
 		if st.Will == "never" {
 			fr.never[st.C] = true
 		}
-		if f != nil && st.Will == "due" && st.Free && f.svc != 0 && fr.wk == "small" && !fr.closedS {
+		if f != nil && st.Will == "due" && st.Free && f.svc != 0 && (fr.wk == "small" || fr.wk == "mid") && !fr.closedS {
 			if d := fr.awaitWill(st.C); d != "" {
 				return fmt.Sprintf("%s: %s", where, d), "C16"
 			}
